@@ -113,7 +113,8 @@ def kaldi_runs(run, tier, rng, root, traces):
     os.makedirs(d)
     utts = {}
     spec = [("k01_ok", 900, 1, RATE, None), ("k02_ok", 1500, 1, RATE, None), ("k03_short", 40, 1, RATE, "empty"),
-            ("k04_stereo", 1000, 2, RATE, None), ("k05_rate", 1200, 1, 16000, "rate"), ("k06_ok", 700, 1, RATE, None)]
+            ("k04_stereo", 1000, 2, RATE, None), ("k05_rate", 1200, 1, 16000, "rate"), ("k06_ok", 700, 1, RATE, None),
+            ("k07_one_frame", 100, 1, RATE, None), ("k08_two_frames", 161, 1, RATE, None)]
     with open(os.path.join(d, "wav.scp"), "w") as scp:
         for (uid, n, ch, rate, why) in spec:
             x = nprng.randint(-3000, 3000, size=(n,) if ch == 1 else (n, ch))
@@ -217,7 +218,8 @@ def torch_runs(run, tier, rng, root, traces, computer=None, seed=5, combos=None,
     os.makedirs(os.path.join(d, "raw"), exist_ok=True)
     spec = []
     lines = []
-    for k, (n, cont) in enumerate([(900, "wav"), (1300, "npy"), (60, "npy"), (1100, "pt"), (800, "sph"), (1000, "npy2")]):
+    for k, (n, cont) in enumerate([(900, "wav"), (1300, "npy"), (60, "npy"), (1100, "pt"), (800, "sph"), (1000, "npy2"),
+                                   (100, "npy"), (161, "wav")]):
         uid = "t%02d" % k
         x = nprng.randint(-3000, 3000, size=n).astype(np.int16)
         p = os.path.join(d, "raw", uid + "." + cont.replace("npy2", "npy"))
@@ -431,7 +433,7 @@ def run(tier, seed):
             u = next(u for u in t["utts"] if len(u["events"]) > 2)
             u["events"][1], u["events"][2] = u["events"][2], u["events"][1]
         common.assert_binding_live(run, "TracePipeline", "TracePipeline.cfg", victim, corrupt, "two stage events of one utterance swapped")
-    run.extra["rule"] = "pre in {none, [preemph], [dither, preemph]} x post in {none, [deltas], [stack, deltas]} x {inline JSON, JSON file, YAML file} x channel / raw-column / worker variants; 6 utterances per run incl. too short, stereo, wrong rate; wav / npy / pt / sph containers"
+    run.extra["rule"] = "pre in {none, [preemph], [dither, preemph]} x post in {none, [deltas], [stack, deltas]} x {inline JSON, JSON file, YAML file} x channel / raw-column / worker variants; 8 utterances per run incl. too short, one frame, two frames, stereo, wrong rate; wav / npy / pt / sph containers"
     return run.finish()
 
 
